@@ -18,7 +18,13 @@ Proof. induction 1; constructor; auto. apply H. Qed.
 Lemma hs_weak_trans : forall a b c, hs_weak a b -> hs_weak b c -> hs_weak a c.
 Proof.
   unfold hs_weak. intros a b c [A1 A2] [B1 B2]. split; [congruence|].
-  intros H. rewrite A2 by assumption. apply B2. congruence.
+  intros r H. destruct (A2 r H) as [E | (N & q & E)].
+  - destruct (B2 r ltac:(congruence)) as [E' | (N' & q' & E')].
+    + left. congruence.
+    + right. split; [assumption|]. exists q'. congruence.
+  - destruct (B2 r ltac:(congruence)) as [E' | (N' & q' & E')].
+    + right. rewrite E'. split; [assumption|]. exists q. assumption.
+    + rewrite E' in N. simpl in N. discriminate.
 Qed.
 Lemma HRw_trans : forall a b, HRw a b -> forall c, HRw b c -> HRw a c.
 Proof.
